@@ -196,3 +196,631 @@ Proof.
         cbn [mfree mq maw mlast]. auto.
     + exists ss, rr, (mkm mf None (Some (ident ss)) last mm). auto.
 Qed.
+
+Lemma sig_output_ok ss buf osz q aw last :
+  (N.to_nat osz + 4 <= length buf)%nat -> 12 <= osz -> sigrel ss q aw last ->
+  (sig_output ss buf (N.to_nat hdr) osz = CRes (SSig ss) buf 0 /\ q = None) \/
+  (exists ss' ps,
+     cres_ok (sig_output ss buf (N.to_nat hdr) osz) buf osz (SSig ss') ([code_cpu_req; ident ss; 8; 0] ++ ps) /\
+     q = Some ps /\ ident ss <> 0 /\ (forall l, last = Some l -> ident ss = succ_id l) /\
+     sigrel ss' None (Some (ident ss)) (Some (ident ss))).
+Proof.
+  intros Hb Ho (Hid & Hp & Hl). unfold sig_output, req_pdu_size.
+  replace (osz <? 12) with false by lia.
+  destruct (pend ss) eqn:Ep; cbn [is_queued].
+  - left. split; [reflexivity | tauto].
+  - right. destruct Hp as [-> ->]. eexists _, _. split; [|split; [reflexivity|]].
+    + pose proof (@cres_ok_put (SSig (mksig Transmitted (ident ss) (p_imin ss) (p_imax ss) (p_lat ss) (p_tmo ss))) buf osz
+        ([code_cpu_req; ident ss; 8; 0] ++ param_bytes (p_imin ss) (p_imax ss) (p_lat ss) (p_tmo ss)) Hb) as P.
+      assert (L : len ([code_cpu_req; ident ss; 8; 0] ++ param_bytes (p_imin ss) (p_imax ss) (p_lat ss) (p_tmo ss)) = 12) by reflexivity.
+      rewrite L in P. apply P. lia.
+    + split; [lia|]. split.
+      * intros l ->. exact Hl.
+      * unfold sigrel. cbn [ident pend is_transmitted]. repeat split; auto; lia.
+  - left. split; [reflexivity | tauto].
+Qed.
+
+(* ------------------------------------------------------------------ the multiplexer: dispatch *)
+Definition cids (chs : list chan) : list N := map cid chs.
+
+Lemma input_each_unknown chs : forall sts ch input buf osz h d,
+  ~ List.In ch (cids chs) ->
+  input_each chs sts ch input buf osz h d = Some (sts, buf, osz, h, d).
+Proof.
+  induction chs as [|k chs IH]; intros sts ch input buf osz h d Hn; [destruct sts; reflexivity|].
+  destruct sts as [|st sts]; [reflexivity|]. cbn [input_each].
+  simpl in Hn. destruct (ch =? cid k) eqn:E; [apply N.eqb_eq in E; exfalso; apply Hn; left; symmetry; exact E|].
+  rewrite IH by tauto. reflexivity.
+Qed.
+
+Lemma input_each_focus l1 : forall s1 k l2 st s2 ch input buf osz h d,
+  length s1 = length l1 -> ~ List.In ch (cids l1) -> ~ List.In ch (cids l2) -> cid k = ch ->
+  input_each (l1 ++ k :: l2) (s1 ++ st :: s2) ch input buf osz h d =
+  match chan_input (kd k) st input buf (N.to_nat hdr) osz with
+  | CFault => None
+  | CRes st' b o => Some (s1 ++ st' :: s2, b, o, true, d ++ [(ch, input)])
+  end.
+Proof.
+  induction l1 as [|x l1 IH]; intros s1 k l2 st s2 ch input buf osz h d Hl H1 H2 Hk.
+  - destruct s1; [|discriminate]. cbn [app input_each]. rewrite Hk, N.eqb_refl.
+    destruct (chan_input (kd k) st input buf (N.to_nat hdr) osz); [reflexivity|].
+    rewrite input_each_unknown by exact H2. reflexivity.
+  - destruct s1 as [|y s1]; [discriminate|]. cbn [app input_each].
+    simpl in H1. destruct (ch =? cid x) eqn:E; [apply N.eqb_eq in E; exfalso; apply H1; left; symmetry; exact E|].
+    rewrite (IH s1 k l2 st s2 ch input buf osz h d) by (simpl in Hl; auto; lia).
+    destruct (chan_input (kd k) st input buf (N.to_nat hdr) osz); reflexivity.
+Qed.
+
+Lemma known_in c ch : known c ch = true <-> List.In ch (cids (chans c)).
+Proof.
+  unfold known, cids. rewrite existsb_exists, in_map_iff. split.
+  - intros (k & Hi & E). apply N.eqb_eq in E. eauto.
+  - intros (k & E & Hi). exists k. split; [auto|]. apply N.eqb_eq. auto.
+Qed.
+
+Lemma split_known chs ch :
+  NoDup (cids chs) -> List.In ch (cids chs) ->
+  exists l1 k l2, chs = l1 ++ k :: l2 /\ cid k = ch /\ ~ List.In ch (cids l1) /\ ~ List.In ch (cids l2).
+Proof.
+  intros Hnd Hin. unfold cids in *. apply in_map_iff in Hin. destruct Hin as (k & Ek & Hin).
+  apply in_split in Hin. destruct Hin as (l1 & l2 & ->).
+  exists l1, k, l2. split; [reflexivity|]. split; [exact Ek|].
+  rewrite map_app in Hnd. simpl in Hnd. apply NoDup_remove_2 in Hnd. rewrite Ek in Hnd.
+  rewrite in_app_iff in Hnd. tauto.
+Qed.
+
+(* ------------------------------------------------------------------ configuration facts *)
+Lemma NoDup_map_inj (A B : Type) (f : A -> B) (l : list A) x y :
+  NoDup (map f l) -> List.In x l -> List.In y l -> f x = f y -> x = y.
+Proof.
+  induction l as [|a l IH]; intros Hnd Hx Hy E; [destruct Hx|].
+  simpl in Hnd. inversion Hnd as [|? ? Hni Hnd']; subst.
+  destruct Hx as [->|Hx], Hy as [->|Hy]; auto.
+  - exfalso. apply Hni. rewrite E. apply in_map. exact Hy.
+  - exfalso. apply Hni. rewrite <- E. apply in_map. exact Hx.
+Qed.
+
+Lemma F2_length (A B : Type) (P : A -> B -> Prop) l l' : Forall2 P l l' -> length l' = length l.
+Proof. induction 1; simpl; auto. Qed.
+
+Lemma has_sig_in c : has_sig c = true <-> exists k, List.In k (chans c) /\ kd k = KSig.
+Proof.
+  unfold has_sig. rewrite existsb_exists. split; intros (k & Hi & E); exists k; split; auto.
+  - destruct (kd k); try discriminate; reflexivity.
+  - rewrite E. reflexivity.
+Qed.
+
+Lemma wf_sig c k : wf c -> List.In k (chans c) -> kd k = KSig -> k = sig_chan.
+Proof. intros (_ & Hs & _) Hi E. rewrite Forall_forall in Hs. auto. Qed.
+
+Lemma wf_cid5 c k : wf c -> has_sig c = true -> List.In k (chans c) -> cid k = cid_sig -> kd k = KSig.
+Proof.
+  intros Hw Hs Hi E. apply has_sig_in in Hs. destruct Hs as (g & Hg & Eg).
+  pose proof (wf_sig c g Hw Hg Eg) as Es.
+  assert (k = g); [|subst; auto].
+  destruct Hw as (Hnd & _). apply (NoDup_map_inj _ _ cid (chans c)); auto. rewrite E, Es. reflexivity.
+Qed.
+
+Lemma on_sig_iff c k : wf c -> List.In k (chans c) -> (on_sig c (cid k) = true <-> kd k = KSig).
+Proof.
+  intros Hw Hi. unfold on_sig. rewrite andb_true_iff, N.eqb_eq. split.
+  - intros [Hs E]. eapply wf_cid5; eauto.
+  - intros E. split.
+    + apply has_sig_in. eauto.
+    + rewrite (wf_sig c k Hw Hi E). reflexivity.
+Qed.
+
+Lemma max_mtu_ge c k : List.In k (chans c) -> cmax k <= max_mtu c.
+Proof.
+  unfold max_mtu. induction (chans c) as [|x l IH]; intros Hi; [destruct Hi|].
+  simpl. destruct Hi as [->|Hi]; [lia|]. specialize (IH Hi). lia.
+Qed.
+
+Lemma has_sig_mtu c : wf c -> has_sig c = true -> 23 <= max_mtu c.
+Proof.
+  intros Hw Hs. apply has_sig_in in Hs. destruct Hs as (g & Hg & Eg).
+  pose proof (max_mtu_ge c g Hg) as H. rewrite (wf_sig c g Hw Hg Eg) in H. exact H.
+Qed.
+
+(* ------------------------------------------------------------------ the invariant *)
+Definition R (m : mon) (k : chan) (st : cstate) : Prop :=
+  kd k = KSig -> exists ss, st = SSig ss /\ sigrel ss (mq m) (maw m) (mlast m).
+
+Definition Inv (c : cfg) (s : state) (m : mon) : Prop :=
+  free s = mfree m /\ free s <= nbuf c /\ Forall2 (R m) (chans c) (cs s) /\
+  (has_sig c = false -> mq m = None /\ maw m = None).
+
+Definition nosig (chs : list chan) : Prop := forall k, List.In k chs -> kd k <> KSig.
+
+Lemma R_nosig m m' chs : forall sts, nosig chs -> Forall2 (R m) chs sts -> Forall2 (R m') chs sts.
+Proof.
+  induction chs as [|k chs IH]; intros sts Hn H; inversion H; subst; constructor.
+  - intros E. exfalso. apply (Hn k); simpl; auto.
+  - apply IH; auto. intros x Hx. apply Hn. simpl; auto.
+Qed.
+
+Lemma R_fields m m' chs sts :
+  mq m' = mq m -> maw m' = maw m -> mlast m' = mlast m ->
+  Forall2 (R m) chs sts -> Forall2 (R m') chs sts.
+Proof.
+  intros E1 E2 E3 H. induction H; constructor; auto.
+  unfold R in *. rewrite E1, E2, E3. auto.
+Qed.
+
+Lemma inv_init c : wf c -> Inv c (init c) (minit c).
+Proof.
+  intros Hw. unfold Inv, init, minit. cbn [free cs mfree mq maw mlast]. repeat split; try lia.
+  induction (chans c) as [|k l IH]; simpl; constructor; auto.
+  intros E. unfold init_chan. rewrite E. eexists. split; [reflexivity|].
+  unfold sigrel. cbn. repeat split; auto; lia.
+Qed.
+
+Lemma nosig_of_cids c l k :
+  wf c -> (forall x, List.In x l -> List.In x (chans c)) -> List.In k (chans c) -> kd k = KSig ->
+  ~ List.In (cid k) (cids l) -> nosig l.
+Proof.
+  intros Hw Hsub Hk Ek Hn x Hx Ex. apply Hn.
+  rewrite (wf_sig c k Hw Hk Ek). rewrite <- (wf_sig c x Hw (Hsub x Hx) Ex). unfold cids. apply in_map. exact Hx.
+Qed.
+
+Lemma dispatch_sim c s m l1 k l2 p :
+  wf c -> Inv c s m -> chans c = l1 ++ k :: l2 ->
+  ~ List.In (cid k) (cids l1) -> ~ List.In (cid k) (cids l2) ->
+  exists s1 st s2 st' r, cs s = s1 ++ st :: s2 /\ length s1 = length l1 /\
+    cres_ok (chan_input (kd k) st p (alloc (max_mtu c)) (N.to_nat hdr) (max_mtu c)) (alloc (max_mtu c)) (max_mtu c) st' r /\
+    forall mf mm, exists m',
+      (if on_sig c (cid k) then sig_in_spec (mkm mf (mq m) (maw m) (mlast m) mm) p (reply_opt r)
+       else (Ok, mkm mf (mq m) (maw m) (mlast m) mm)) = (Ok, m') /\
+      mfree m' = mf /\ Forall2 (R m') (chans c) (s1 ++ st' :: s2) /\
+      (has_sig c = false -> mq m' = None /\ maw m' = None).
+Proof.
+  intros Hw (Hf & Hn & HR & Hns) Ec H1 H2.
+  rewrite Ec in HR. apply Forall2_app_inv_l in HR. destruct HR as (s1 & s2' & HR1 & HR2 & Es).
+  inversion HR2 as [|? st ? s2 Rk HR2' ]; subst s2'. subst.
+  assert (Hk : List.In k (chans c)) by (rewrite Ec; apply in_or_app; simpl; auto).
+  assert (Hb : (N.to_nat (max_mtu c) + 4 <= length (alloc (max_mtu c)))%nat) by (rewrite alloc_length; lia).
+  exists s1, st, s2.
+  destruct (on_sig c (cid k)) eqn:Eo.
+  - (* the signaling channel *)
+    pose proof (proj1 (on_sig_iff c k Hw Hk) Eo) as Ek.
+    destruct (Rk Ek) as (ss & -> & Hrel).
+    assert (Hs : has_sig c = true) by (unfold on_sig in Eo; apply andb_true_iff in Eo; tauto).
+    pose proof (has_sig_mtu c Hw Hs) as Hm.
+    destruct (sig_input_ok ss p (alloc (max_mtu c)) (max_mtu c) 0 _ _ _ false Hb ltac:(lia) Hrel) as (ss' & r & m0 & A & _ & _ & _).
+    exists (SSig ss'), r. split; [exact Es|]. split; [apply (F2_length _ _ _ _ _ HR1)|].
+    rewrite Ek. cbn [chan_input]. split; [exact A|].
+    intros mf mm.
+    destruct (sig_input_ok ss p (alloc (max_mtu c)) (max_mtu c) mf _ _ _ mm Hb ltac:(lia) Hrel) as (ss2 & r2 & m' & A2 & B & C & D).
+    assert (ss2 = ss' /\ r2 = r) as [-> ->].
+    { destruct A as (b1 & E1 & _ & _ & F1). destruct A2 as (b2 & E2 & _ & _ & F2).
+      rewrite E1 in E2. injection E2 as -> -> E3.
+      split; [reflexivity|]. rewrite <- F1, <- F2. f_equal. unfold len in E3. lia. }
+    exists m'. split; [exact B|]. split; [exact C|]. split.
+    + rewrite Ec. apply Forall2_app.
+      * apply (R_nosig m); auto.
+        apply (nosig_of_cids c _ k); auto. intros x Hx. rewrite Ec. apply in_or_app. auto.
+      * constructor.
+        -- intros _. exists ss'. auto.
+        -- apply (R_nosig m); auto.
+           apply (nosig_of_cids c _ k); auto. intros x Hx. rewrite Ec. apply in_or_app. simpl. auto.
+    + intros E. rewrite E in Hs. discriminate.
+  - (* a user channel *)
+    assert (Ek : kd k <> KSig).
+    { intros E. apply (on_sig_iff c k Hw Hk) in E. rewrite E in Eo. discriminate. }
+    destruct (chan_input_nosig (kd k) st p (alloc (max_mtu c)) (max_mtu c) Ek Hb) as (st' & r & A).
+    exists st', r. split; [exact Es|]. split; [apply (F2_length _ _ _ _ _ HR1)|]. split; [exact A|].
+    intros mf mm. eexists. split; [reflexivity|]. cbn [mfree mq maw mlast]. split; [reflexivity|]. split; [|exact Hns].
+    apply (R_fields m); auto. rewrite Ec. apply Forall2_app; auto. constructor; auto.
+    intros E. contradiction.
+Qed.
+
+(* ------------------------------------------------------------------ handle_l2cap_input *)
+Lemma len4 b0 b1 b2 b3 p : len (b0 :: b1 :: b2 :: b3 :: p) = len p + 4.
+Proof. unfold len. simpl length. lia. Qed.
+
+Lemma mon_eta m : mkm (mfree m) (mq m) (maw m) (mlast m) (mmis m) = m.
+Proof. destruct m; reflexivity. Qed.
+
+Lemma step_in c s m f : wf c -> Inv c s m ->
+  exists s' r m', handle_input c s f = (s', r) /\ mstep c m (In f) r = (Ok, m') /\ Inv c s' m'.
+Proof.
+  intros Hw HI. pose proof HI as (Hf & Hn & HR & Hns).
+  destruct f as [|b0 [|b1 [|b2 [|b3 p]]]];
+    try (exists s, (OIn true [] []), m; split; [reflexivity | split; [reflexivity | exact HI]]).
+  unfold handle_input. cbn [mstep parse]. rewrite len4.
+  set (size := le16 b0 b1). set (ch := le16 b2 b3).
+  replace (len p + 4 =? size + hdr) with (size =? len p) by (unfold hdr; lia).
+  destruct (size =? len p) eqn:El; cbn [negb].
+  2: { exists s, (OIn true [] []), m. split; [reflexivity | split; [reflexivity | exact HI]]. }
+  rewrite <- Hf. destruct (free s =? 0) eqn:E0.
+  { exists s, (OIn false [] []), m. split; [reflexivity | split; [reflexivity | exact HI]]. }
+  destruct (known c ch) eqn:Ekn.
+  2: { rewrite input_each_unknown by (rewrite <- known_in; congruence). cbn [andb].
+       exists (mk (cs s) (free s)), (OIn true [] []), m. split; [reflexivity|]. split; [reflexivity|].
+       unfold Inv. cbn [free cs]. auto. }
+  apply known_in in Ekn. destruct (split_known (chans c) ch (proj1 Hw) Ekn) as (l1 & k & l2 & Ec & Ek & H1 & H2).
+  rewrite <- Ek in H1, H2.
+  destruct (dispatch_sim c s m l1 k l2 p Hw HI Ec H1 H2) as (s1 & st & s2 & st' & r & Es & Hl & A & B).
+  rewrite Ec, Es. rewrite (input_each_focus l1 s1 k l2 st s2 ch p) by (auto; rewrite <- Ek; auto).
+  destruct A as (b & Eres & Lb & Lr & Fr). rewrite Eres. cbn [andb app negb].
+  assert (Hch : u16 ch = ch) by (apply u16_small; apply le16_lt).
+  assert (Hdl : dlv_is [(ch, p)] ch p = true) by (cbn; rewrite N.eqb_refl, list_eqb_refl; reflexivity).
+  rewrite Ek in B.
+  destruct r as [|x r'].
+  - destruct (B (mfree m) (mmis m)) as (m' & Bm & Bf & BR & Bns). rewrite mon_eta in Bm.
+    cbn [reply_opt] in Bm. rewrite len_nil. cbn [N.eqb negb].
+    exists (mk (s1 ++ st' :: s2) (free s)), (OIn true [(ch, p)] []), m'.
+    split; [reflexivity|]. split; [cbn [negb]; rewrite Hdl; exact Bm|].
+    unfold Inv. cbn [free cs]. rewrite Bf. auto.
+  - destruct (B (free s - 1) (mmis m)) as (m' & Bm & Bf & BR & Bns).
+    assert (E1 : (len (x :: r') =? 0) = false) by (rewrite len_cons; lia).
+    rewrite E1. cbn [negb].
+    rewrite alloc_length in Lb.
+    rewrite finish_frame_spec by (unfold len in *; lia).
+    replace (N.to_nat (len (x :: r'))) with (length (x :: r')) by (unfold len; lia).
+    rewrite Fr.
+    exists (mk (s1 ++ st' :: s2) (free s - 1)), (OIn true [(ch, p)] [header (len (x :: r')) ch ++ x :: r']), m'.
+    split; [reflexivity|]. split.
+    + cbn [negb]. rewrite Hdl. cbn [negb].
+      unfold frame_fits, frame_cid, frame_payload. rewrite parse_frame.
+      destruct Hw as (_ & _ & Hmax & _).
+      rewrite (u16_small (len (x :: r'))) by lia. rewrite Hch, !N.eqb_refl.
+      replace (len (x :: r') <=? max_mtu c) with true by lia. cbn [andb negb].
+      cbn [reply_opt] in Bm. exact Bm.
+    + unfold Inv. cbn [free cs]. rewrite Bf. split; [reflexivity|]. split; [lia|]. split; assumption.
+Qed.
+
+(* ------------------------------------------------------------------ connection_parameter_update_request *)
+Definition mreq (m : mon) (a b c d : N) : mon :=
+  mkm (mfree m) (Some (param_bytes (u16 a) (u16 b) (u16 c) (u16 d))) (maw m) (mlast m) (mmis m).
+
+Definition sig_cids (chs : list chan) : Prop := forall k, List.In k chs -> kd k = KSig -> cid k = cid_sig.
+
+Lemma tail_nosig k chs : NoDup (cids (k :: chs)) -> sig_cids (k :: chs) -> kd k = KSig -> nosig chs.
+Proof.
+  intros Hnd Hs Ek x Hx Ex. simpl in Hnd. inversion Hnd as [|? ? Hni _]; subst. apply Hni.
+  rewrite (Hs k (or_introl eq_refl) Ek). rewrite <- (Hs x (or_intror Hx) Ex). unfold cids. apply in_map. exact Hx.
+Qed.
+
+Lemma request_each_sim chs : forall sts m a b c' d,
+  NoDup (cids chs) -> sig_cids chs -> Forall2 (R m) chs sts ->
+  if existsb (fun k => is_sig (kd k)) chs then
+    let ok := is_none (mq m) && is_none (maw m) in
+    exists sts', request_each chs sts a b c' d = (sts', ok) /\
+                 Forall2 (R (if ok then mreq m a b c' d else m)) chs sts'
+  else request_each chs sts a b c' d = (sts, false).
+Proof.
+  induction chs as [|k chs IH]; intros sts m a b c' d Hnd Hs HR.
+  - inversion HR; subst. reflexivity.
+  - inversion HR as [|? st ? sts0 Rk HR']; subst. cbn [existsb request_each].
+    assert (Hnd' : NoDup (cids chs)) by (simpl in Hnd; inversion Hnd; auto).
+    assert (Hs' : sig_cids chs) by (intros x Hx; apply Hs; simpl; auto).
+    destruct (kd k) eqn:Ek; cbn [is_sig orb].
+    1-3: specialize (IH sts0 m a b c' d Hnd' Hs' HR');
+         destruct (existsb (fun k0 => is_sig (kd k0)) chs);
+         [ destruct IH as (sts' & E & F); rewrite E; eexists; split; [reflexivity|];
+           constructor; auto; intros X; congruence
+         | rewrite IH; reflexivity ].
+    destruct (Rk Ek) as (ss & -> & Hrel). pose proof Hrel as (Hid & Hp & Hl).
+    pose proof (tail_nosig k chs Hnd Hs Ek) as Hno.
+    unfold sig_request.
+    destruct (pend ss) eqn:Ep; cbn [is_idle].
+    + destruct Hp as [Eq Ea]. rewrite Eq, Ea. cbn [is_none andb].
+      eexists. split; [reflexivity|]. constructor.
+      * intros _. eexists. split; [reflexivity|]. unfold mreq, sigrel. cbn [mq maw mlast ident pend is_transmitted p_imin p_imax p_lat p_tmo].
+        split; [exact Hid|]. split; [auto|]. exact Hl.
+      * apply (R_nosig m); auto.
+    + destruct Hp as [Eq Ea]. rewrite Eq. cbn [is_none andb].
+      eexists. split; [reflexivity|]. constructor; auto.
+    + destruct Hp as [Eq Ea]. rewrite Eq, Ea. cbn [is_none andb].
+      eexists. split; [reflexivity|]. constructor; auto.
+Qed.
+
+Lemma wf_sig_cids c : wf c -> sig_cids (chans c).
+Proof. intros Hw k Hk Ek. rewrite (wf_sig c k Hw Hk Ek). reflexivity. Qed.
+
+Lemma step_req c s m a b c' d : wf c -> Inv c s m ->
+  exists s' r m', step c s (Req a b c' d) = (s', r) /\ mstep c m (Req a b c' d) r = (Ok, m') /\ Inv c s' m'.
+Proof.
+  intros Hw (Hf & Hn & HR & Hns). cbn [step mstep].
+  pose proof (request_each_sim (chans c) (cs s) m a b c' d (proj1 Hw) (wf_sig_cids c Hw) HR) as H.
+  fold (has_sig c) in H. destruct (has_sig c) eqn:Es.
+  - cbv zeta in H. destruct H as (sts' & E & F). rewrite E.
+    eexists _, _, _. split; [reflexivity|]. cbn [mstep].
+    rewrite Bool.eqb_reflx. split; [reflexivity|].
+    unfold Inv. cbn [free cs]. destruct (is_none (mq m) && is_none (maw m)).
+    + split; [exact Hf|]. split; [exact Hn|]. split; [exact F|]. intros X; rewrite Es in X; discriminate X.
+    + split; [exact Hf|]. split; [exact Hn|]. split; [exact F|]. intros X; rewrite Es in X; discriminate X.
+  - rewrite H. eexists _, _, _. split; [reflexivity|]. cbn [mstep]. split; [reflexivity|].
+    unfold Inv. cbn [free cs]. auto.
+Qed.
+
+Lemma step_free c s m n : Inv c s m ->
+  exists s' r m', step c s (Free n) = (s', r) /\ mstep c m (Free n) r = (Ok, m') /\ Inv c s' m'.
+Proof.
+  intros (Hf & Hn & HR & Hns). cbn [step]. eexists _, _, _. split; [reflexivity|]. cbn [mstep].
+  rewrite <- Hf, N.eqb_refl. split; [reflexivity|].
+  unfold Inv. cbn [free cs mfree mq maw mlast]. split; [reflexivity|]. split; [lia|]. split; [|exact Hns].
+  apply (R_fields m); auto.
+Qed.
+
+(* ------------------------------------------------------------------ transmit_pending_l2cap_output *)
+Definition msent (m : mon) (i : N) : mon := mkm (mfree m) None (Some i) (Some i) false.
+
+Definition hassig (chs : list chan) : Prop := exists k, List.In k chs /\ kd k = KSig.
+
+Lemma output_each_skip chs : forall sts buf size o chid,
+  o <> 0 -> output_each chs sts buf size o chid = Some (sts, buf, o, chid).
+Proof.
+  induction chs as [|k chs IH]; intros sts buf size o chid Ho; [destruct sts; reflexivity|].
+  destruct sts as [|st sts]; [reflexivity|]. cbn [output_each].
+  replace (o =? 0) with false by lia. rewrite IH by exact Ho. reflexivity.
+Qed.
+
+(* what one round over the channels produces *)
+Definition out_res (m : mon) (chs : list chan) (size : N) (sts' : list cstate) (b : list N) (o chid' : N) : Prop :=
+  (o = 0 /\ Forall2 (R m) chs sts' /\ (hassig chs -> mq m = None)) \/
+  (exists k r, List.In k chs /\ chid' = cid k /\ o = len r /\ r <> [] /\ len r <= size /\
+     firstn (length r) (skipn 4 b) = r /\
+     ((kd k <> KSig /\ Forall2 (R m) chs sts') \/
+      (kd k = KSig /\ exists i ps, r = [code_cpu_req; i; 8; 0] ++ ps /\ mq m = Some ps /\ i <> 0 /\
+         (forall l, mlast m = Some l -> i = succ_id l) /\ Forall2 (R (msent m i)) chs sts'))).
+
+Lemma out_res_cons m k chs size st' sts' b o chid' :
+  R m k st' -> (kd k = KSig -> mq m = None) -> (kd k = KSig -> nosig chs) ->
+  out_res m chs size sts' b o chid' -> out_res m (k :: chs) size (st' :: sts') b o chid'.
+Proof.
+  intros Rk Hq Hno [(Eo & F & Hs) | (k' & r & Hi & Ec & Eo & Hr & Hl & Fr & D)].
+  - left. split; [exact Eo|]. split; [constructor; auto|].
+    intros (x & [<-|Hx] & Ex); [auto|]. apply Hs. exists x. auto.
+  - right. exists k', r. split; [simpl; auto|]. repeat (split; [assumption|]).
+    destruct D as [(Ek & F) | (Ek & i & ps & D1 & D2 & D3 & D4 & F)].
+    + left. split; [exact Ek|]. constructor; auto.
+    + right. split; [exact Ek|]. exists i, ps. repeat (split; [assumption|]). constructor; auto.
+      intros E. exfalso. apply (Hno E k' Hi Ek).
+Qed.
+
+Lemma output_each_sim chs : forall sts buf size chid m,
+  NoDup (cids chs) -> sig_cids chs -> Forall2 (R m) chs sts ->
+  (N.to_nat size + 4 <= length buf)%nat -> (hassig chs -> 12 <= size) ->
+  exists sts' b o chid', output_each chs sts buf size 0 chid = Some (sts', b, o, chid') /\
+    length b = length buf /\ out_res m chs size sts' b o chid'.
+Proof.
+  induction chs as [|k chs IH]; intros sts buf size chid m Hnd Hs HR Hb H12.
+  - inversion HR; subst. exists [], buf, 0, chid. split; [reflexivity|]. split; [reflexivity|].
+    left. split; [reflexivity|]. split; [constructor|]. intros (x & [] & _).
+  - inversion HR as [|? st ? sts0 Rk HR']; subst. cbn [output_each]. cbn [N.eqb].
+    assert (Hnd' : NoDup (cids chs)) by (simpl in Hnd; inversion Hnd; auto).
+    assert (Hs' : sig_cids chs) by (intros x Hx; apply Hs; simpl; auto).
+    assert (H12' : hassig chs -> 12 <= size).
+    { intros (x & Hx & Ex). apply H12. exists x. simpl; auto. }
+    assert (Hcases : kd k <> KSig \/ kd k = KSig) by (destruct (kd k); auto; left; discriminate).
+    destruct Hcases as [Ek | Ek].
+    + destruct (chan_output_nosig (kd k) st buf size Ek Hb) as (st' & r & b & Eres & Lb & Lr & Fr).
+      rewrite Eres. destruct r as [|x r'].
+      * rewrite len_nil.
+        destruct (IH sts0 b size (cid k) m Hnd' Hs' HR' ltac:(lia) H12') as (sts' & b' & o & chid' & E & Lb' & Hres).
+        rewrite E. exists (st' :: sts'), b', o, chid'. split; [reflexivity|]. split; [lia|].
+        apply out_res_cons; auto; intros X; contradiction.
+      * rewrite output_each_skip by (rewrite len_cons; lia).
+        exists (st' :: sts0), b, (len (x :: r')), (cid k). split; [reflexivity|]. split; [exact Lb|].
+        right. exists k, (x :: r'). split; [simpl; auto|]. split; [reflexivity|]. split; [reflexivity|].
+        split; [discriminate|]. split; [exact Lr|]. split; [exact Fr|].
+        left. split; [exact Ek|]. constructor; auto. intros X; contradiction.
+    + destruct (Rk Ek) as (ss & -> & Hrel).
+      pose proof (tail_nosig k chs Hnd Hs Ek) as Hno.
+      assert (Ho : 12 <= size) by (apply H12; exists k; simpl; auto).
+      rewrite Ek. cbn [chan_output].
+      destruct (sig_output_ok ss buf size _ _ _ Hb Ho Hrel) as [(E & Eq) | (ss' & ps & (b & Eres & Lb & Lr & Fr) & Eq & Hi & Hl & Hrel')].
+      * rewrite E.
+        destruct (IH sts0 buf size (cid k) m Hnd' Hs' HR' Hb H12') as (sts' & b' & o & chid' & E' & Lb' & Hres).
+        rewrite E'. exists (SSig ss :: sts'), b', o, chid'. split; [reflexivity|]. split; [exact Lb'|].
+        apply out_res_cons; auto.
+      * rewrite Eres. rewrite output_each_skip by (unfold len; simpl; lia).
+        eexists (SSig ss' :: sts0), b, _, (cid k). split; [reflexivity|]. split; [exact Lb|].
+        right. exists k, ([code_cpu_req; ident ss; 8; 0] ++ ps). split; [simpl; auto|]. split; [reflexivity|].
+        split; [reflexivity|]. split; [discriminate|]. split; [exact Lr|]. split; [exact Fr|].
+        right. split; [exact Ek|]. exists (ident ss), ps. split; [reflexivity|]. split; [exact Eq|].
+        split; [exact Hi|]. split; [exact Hl|]. constructor.
+        -- intros _. exists ss'. split; [reflexivity|]. exact Hrel'.
+        -- apply (R_nosig m); auto.
+Qed.
+
+Lemma len_alloc n : len (alloc n) - hdr = n.
+Proof. unfold len. rewrite alloc_length. unfold hdr. lia. Qed.
+
+Lemma wf_cid_lt c k : wf c -> List.In k (chans c) -> cid k < 65536.
+Proof. intros (_ & _ & _ & H) Hk. rewrite Forall_forall in H. auto. Qed.
+
+Lemma single_sim c s m : wf c -> Inv c s m ->
+  match transmit_single c s with
+  | SFault => False
+  | SStop s' => Inv c s' m /\ (mfree m = 0 \/ mq m = None)
+  | SSent s' f => exists m', poll_frame c m f = (Ok, m') /\ Inv c s' m' /\ free s' = free s - 1 /\ free s <> 0
+  end.
+Proof.
+  intros Hw HI. pose proof HI as (Hf & Hn & HR & Hns). unfold transmit_single.
+  destruct (free s =? 0) eqn:E0.
+  { split; [exact HI|]. left. lia. }
+  rewrite len_alloc.
+  assert (H12 : hassig (chans c) -> 12 <= max_mtu c).
+  { intros H. apply has_sig_in in H. pose proof (has_sig_mtu c Hw H). lia. }
+  assert (Hb : (N.to_nat (max_mtu c) + 4 <= length (alloc (max_mtu c)))%nat) by (rewrite alloc_length; lia).
+  destruct (output_each_sim (chans c) (cs s) (alloc (max_mtu c)) (max_mtu c) 0 m (proj1 Hw) (wf_sig_cids c Hw) HR Hb H12)
+    as (sts' & b & o & chid' & E & Lb & Hres).
+  rewrite E. destruct Hres as [(Eo & F & Hq) | (k & r & Hk & Ec & Eo & Hr & Hl & Fr & D)].
+  - subst o. cbn [N.eqb]. split.
+    + unfold Inv. cbn [free cs]. auto.
+    + right. destruct (has_sig c) eqn:Es.
+      * apply Hq. apply has_sig_in. exact Es.
+      * apply Hns. reflexivity.
+  - assert (Eo0 : (o =? 0) = false).
+    { subst o. destruct r; [congruence|]. rewrite len_cons. lia. }
+    rewrite Eo0. subst o chid'. rewrite alloc_length in Lb.
+    rewrite finish_frame_spec by (unfold len in *; lia).
+    replace (N.to_nat (len r)) with (length r) by (unfold len; lia). rewrite Fr.
+    unfold poll_frame. rewrite <- Hf, E0.
+    unfold frame_fits, frame_cid, frame_payload. rewrite parse_frame.
+    pose proof Hw as (_ & _ & Hmax & _).
+    rewrite (u16_small (len r)) by lia. rewrite (u16_small (cid k)) by (apply (wf_cid_lt c); auto).
+    rewrite N.eqb_refl. replace (len r <=? max_mtu c) with true by lia. cbn [andb negb].
+    assert (Ekn : known c (cid k) = true) by (apply known_in; unfold cids; apply in_map; exact Hk).
+    rewrite Ekn. cbn [negb].
+    destruct D as [(Ek & F) | (Ek & i & ps & -> & Eq & Hi & Hlast & F)].
+    + assert (Eo : on_sig c (cid k) = false).
+      { destruct (on_sig c (cid k)) eqn:X; [|reflexivity]. apply (on_sig_iff c k Hw Hk) in X. contradiction. }
+      rewrite Eo. eexists. split; [reflexivity|].
+      split; [|split; [reflexivity | lia]].
+      unfold Inv. cbn [free cs mfree mq maw mlast]. split; [reflexivity|]. split; [lia|]. split; [|exact Hns].
+      apply (R_fields m); auto.
+    + assert (Eo : on_sig c (cid k) = true) by (apply (on_sig_iff c k Hw Hk); exact Ek).
+      rewrite Eo. unfold sig_out_spec. cbn [mq mlast mfree app]. rewrite Eq.
+      rewrite !N.eqb_refl, list_eqb_refl. cbn [andb negb].
+      replace (i =? 0) with false by lia.
+      assert (El : match mlast m with Some l => negb (i =? succ_id l) | None => false end = false).
+      { destruct (mlast m) as [l|]; [|reflexivity]. rewrite (Hlast l eq_refl), N.eqb_refl. reflexivity. }
+      rewrite El. eexists. split; [reflexivity|].
+      split; [|split; [reflexivity | lia]].
+      unfold Inv. cbn [free cs mfree mq maw mlast]. split; [reflexivity|]. split; [lia|]. split.
+      * apply (R_fields (msent m i)); auto.
+      * intros X. unfold on_sig in Eo. rewrite X in Eo. discriminate.
+Qed.
+
+Lemma loop_sim c : wf c -> forall fuel s m, Inv c s m -> (N.to_nat (free s) < fuel)%nat ->
+  exists s' tx m', transmit_loop fuel c s = Some (s', tx) /\ poll_frames c m tx = (Ok, m') /\ Inv c s' m'.
+Proof.
+  intros Hw. induction fuel as [|n IH]; intros s m HI Hfuel; [lia|].
+  cbn [transmit_loop]. pose proof (single_sim c s m Hw HI) as H.
+  destruct (transmit_single c s) as [|s'|s' f].
+  - contradiction.
+  - destruct H as (HI' & Hq). exists s', [], m. split; [reflexivity|]. split; [|exact HI'].
+    cbn [poll_frames]. destruct Hq as [-> | ->]; cbn [is_none negb andb N.eqb]; [|reflexivity].
+    rewrite andb_false_r. reflexivity.
+  - destruct H as (m' & Hp & HI' & Hfree & Hnz).
+    destruct (IH s' m' HI' ltac:(lia)) as (s'' & tx & m'' & E & P & HI'').
+    rewrite E. exists s'', (f :: tx), m''. split; [reflexivity|]. split; [|exact HI''].
+    cbn [poll_frames]. rewrite Hp. exact P.
+Qed.
+
+Lemma step_poll c s m : wf c -> Inv c s m ->
+  exists s' r m', step c s Poll = (s', r) /\ mstep c m Poll r = (Ok, m') /\ Inv c s' m'.
+Proof.
+  intros Hw HI. cbn [step].
+  destruct (loop_sim c Hw (S (N.to_nat (free s))) s m HI ltac:(lia)) as (s' & tx & m' & E & P & HI').
+  rewrite E. exists s', (OPoll tx), m'. auto.
+Qed.
+
+(* ------------------------------------------------------------------ main theorems *)
+Lemma step_sim c s m o : wf c -> Inv c s m ->
+  exists s' r m', step c s o = (s', r) /\ mstep c m o r = (Ok, m') /\ Inv c s' m'.
+Proof.
+  intros Hw HI. destruct o as [f | a b c' d | | n].
+  - apply step_in; auto.
+  - apply step_req; auto.
+  - apply step_poll; auto.
+  - apply step_free; auto.
+Qed.
+
+Lemma monitor_from_accepts c : wf c -> forall ops s m pos,
+  Inv c s m -> monitor_from c m pos (run c s ops) = None.
+Proof.
+  intros Hw. induction ops as [|o t IH]; intros s m pos HI; [reflexivity|].
+  cbn [run]. destruct (step_sim c s m o Hw HI) as (s' & r & m' & E & M & HI').
+  rewrite E. cbn [monitor_from]. rewrite M. apply IH. exact HI'.
+Qed.
+
+Theorem monitor_accepts c ops : wf c -> monitor c (run c (init c) ops) = None.
+Proof. intros Hw. apply monitor_from_accepts; auto. apply inv_init; auto. Qed.
+
+Lemma mstep_fault c m o : exists m', mstep c m o OFault = (Bad t_reply_fits, m').
+Proof. destruct o; eexists; reflexivity. Qed.
+
+Lemma run_no_fault c : wf c -> forall ops s m, Inv c s m ->
+  forall o r, List.In (o, r) (run c s ops) -> r <> OFault.
+Proof.
+  intros Hw. induction ops as [|x t IH]; intros s m HI o r Hin; [destruct Hin|].
+  cbn [run] in Hin. destruct (step_sim c s m x Hw HI) as (s' & r' & m' & E & M & HI').
+  rewrite E in Hin. destruct Hin as [Heq | Hin].
+  - injection Heq as -> ->. intros ->. destruct (mstep_fault c m o) as (m2 & X). rewrite X in M. discriminate.
+  - eapply IH; eauto.
+Qed.
+
+Theorem never_faults c ops o r : wf c -> List.In (o, r) (run c (init c) ops) -> r <> OFault.
+Proof. intros Hw. apply (run_no_fault c Hw ops (init c) (minit c)). apply inv_init; auto. Qed.
+
+(* ------------------------------------------------------------------ a decision procedure for wf (examples) *)
+Fixpoint nodupb (l : list N) : bool :=
+  match l with
+  | [] => true
+  | x :: t => negb (existsb (N.eqb x) t) && nodupb t
+  end.
+
+Definition chan_is_sig (k : chan) : bool := (cid k =? cid_sig) && (cmax k =? sig_mtu).
+
+Definition wfb (c : cfg) : bool :=
+  nodupb (map cid (chans c)) &&
+  forallb (fun k => if is_sig (kd k) then chan_is_sig k else true) (chans c) &&
+  (max_mtu c + 4 <? 65536) &&
+  forallb (fun k => cid k <? 65536) (chans c).
+
+Lemma nodupb_sound l : nodupb l = true -> NoDup l.
+Proof.
+  induction l as [|x t IH]; intros H; [constructor|].
+  simpl in H. apply andb_true_iff in H. destruct H as [H1 H2]. constructor; [|auto].
+  intros Hin. apply negb_true_iff in H1.
+  assert (existsb (N.eqb x) t = true); [|congruence].
+  apply existsb_exists. exists x. split; [exact Hin | apply N.eqb_refl].
+Qed.
+
+Lemma wfb_sound c : wfb c = true -> wf c.
+Proof.
+  unfold wfb, wf. rewrite !andb_true_iff. intros [[[H1 H2] H3] H4].
+  split; [apply nodupb_sound; exact H1|]. split; [|split; [lia|]].
+  - rewrite Forall_forall. rewrite forallb_forall in H2. intros k Hk Ek. specialize (H2 k Hk).
+    rewrite Ek in H2. cbn [is_sig] in H2. unfold chan_is_sig in H2. apply andb_true_iff in H2.
+    destruct H2 as [A B]. apply N.eqb_eq in A. apply N.eqb_eq in B.
+    destruct k as [kk kc km]. cbn in *. subst. reflexivity.
+  - rewrite Forall_forall. rewrite forallb_forall in H4. intros k Hk. specialize (H4 k Hk). lia.
+Qed.
+
+(* ------------------------------------------------------------------ the signaling channel on its own *)
+Definition first_byte (input : list N) : N := match input with c :: _ => c | [] => 0 end.
+
+(* an outstanding request is completed by exactly the matching responses (code 0x13, 6 bytes, the
+   request's identifier, length field 2); every other PDU leaves the request outstanding and the
+   identifier unchanged *)
+Lemma sig_response_exact ss input buf osz :
+  pend ss = Transmitted -> 6 <= osz -> (N.to_nat osz + 4 <= length buf)%nat ->
+  exists ss' b o, sig_input ss input buf (N.to_nat hdr) osz = CRes (SSig ss') b o /\
+    if (first_byte input =? code_cpu_rsp) && matching_response (ident ss) input
+    then pend ss' = Idle /\ ident ss' = succ_id (ident ss) /\ o = 0
+    else ss' = ss.
+Proof.
+  intros Ep Ho Hb. unfold sig_input. fold (first_byte input). rewrite Ep. cbn [is_transmitted]. rewrite andb_true_r.
+  destruct (first_byte input =? code_cpu_rsp) eqn:Ec; cbn [andb].
+  - destruct (matching_response (ident ss) input) eqn:Em.
+    + eexists _, _, _. split; [reflexivity|]. cbn [pend ident]. rewrite next_ident_succ. auto.
+    + eexists _, _, _. split; [reflexivity|]. reflexivity.
+  - destruct (sig_reject_ok ss input buf osz (mkm 0 None None None false) Hb Ho) as (r & (b & E & _) & _).
+    rewrite E. eexists _, _, _. split; [reflexivity|]. reflexivity.
+Qed.
+
+(* a queued request is transmitted by the next l2cap_output with the current identifier, exactly once *)
+Lemma sig_output_once ss buf osz :
+  12 <= osz -> (N.to_nat osz + 4 <= length buf)%nat ->
+  exists ss' b o, sig_output ss buf (N.to_nat hdr) osz = CRes (SSig ss') b o /\
+    match pend ss with
+    | Queued => pend ss' = Transmitted /\ ident ss' = ident ss /\ o = 12 /\
+                firstn 12 (skipn 4 b) = [code_cpu_req; ident ss; 8; 0] ++ param_bytes (p_imin ss) (p_imax ss) (p_lat ss) (p_tmo ss)
+    | _ => ss' = ss /\ o = 0 /\ b = buf
+    end.
+Proof.
+  intros Ho Hb. unfold sig_output, req_pdu_size. replace (osz <? 12) with false by lia.
+  destruct (pend ss) eqn:Ep; cbn [is_queued].
+  - eexists _, _, _. split; [reflexivity|]. auto.
+  - destruct (put_spec buf (N.to_nat hdr)
+      ([code_cpu_req; ident ss; 8; 0] ++ param_bytes (p_imin ss) (p_imax ss) (p_lat ss) (p_tmo ss))) as (b & E & L & F).
+    + simpl length. unfold hdr. lia.
+    + rewrite E. eexists _, _, _. split; [reflexivity|]. cbn [pend ident]. repeat split; auto.
+  - eexists _, _, _. split; [reflexivity|]. auto.
+Qed.
